@@ -5,7 +5,7 @@ open Gql.Async Driver
 /-
 Line: `<q|m> <forest> | <events>`
 forest  := `F k node*k`
-node    := `N nn gates res k node*k`   res := `R` | `U` | `L n` | `C islist`
+node    := `N nn gates res k node*k`   res := `R` | `U` | `L n` | `C kind` (0 object, 1 list, 2 async-iterator list)
 events  := (`R path` | `S path` | `C path` | `D`)*     path := dot separated indices
 Out   : `ok <data> | <nulled paths ;-separated> | <steps> | <delivered data or ->`  or  `bad <event index> <reason>`
 -/
@@ -16,7 +16,7 @@ partial def parseNode : List String → Option (Cfg → Cfg) × List String
       | "R" :: r => some (.raise, r)
       | "U" :: r => some (.null, r)
       | "L" :: n :: r => n.toNat?.map (fun n => (.leaf n, r))
-      | "C" :: l :: r => some (.comp (l == "1"), r)
+      | "C" :: l :: r => some (.comp (if l == "1" then .list else if l == "2" then .aiter else .obj), r)
       | _ => none
     match resP, g.toNat? with
     | some (res, k :: r), some g =>
